@@ -4,6 +4,6 @@ cd "$(dirname "$0")/.." || exit 2
 for d in seeded/*/; do
   id=$(basename $d)
   checks=$(python3 -c "import json;print(' '.join(json.load(open('$d/meta.json'))['caught_by']))")
-  res=$(harness/try_seed.sh $d/patch.diff $checks 2>&1 | grep '^==' | sed 's/: .*VIOLATION.*no-failing-input-found/ BROKEN-ONLY/; s/: .*VIOLATION.*/ CAUGHT/; s/: C.. .*violations 0.*/ MISSED/' | tr '\n' ' ')
+  res=$(harness/try_seed.sh ${d}patch.diff $checks 2>&1 | grep '^==' | sed -e 's/^== \(C[0-9]*\) rc=1: VIOLATION.*no-failing-input-found.*/\1:BROKEN-ONLY/' -e 's/^== \(C[0-9]*\) rc=1.*/\1:CAUGHT/' -e 's/^== \(C[0-9]*\) rc=0.*/\1:MISSED/' -e 's/^== \(C[0-9]*\) rc=2.*/\1:INFRA/' | tr '\n' ' ')
   echo "$id -> $res"
 done
